@@ -80,6 +80,10 @@ type chunkPayloadData struct {
 
 	head *chunkPayloadData // link to the head of the fragment
 
+	// the stream that sent this chunk (sender side), to release its buffered
+	// amount even when it is no longer registered under its identifier
+	stream *Stream
+
 	rackPrev   *chunkPayloadData
 	rackNext   *chunkPayloadData
 	rackInList bool
